@@ -834,7 +834,7 @@ type client struct {
 
 	// coalescers caches one coalescer per destination endpoint ("host:port").
 	// Populated lazily on first coalesced send to a new destination and
-	// torn down in Close. coalescersMu guards the creation path only; reads
+	// torn down in Close. coalescersMu guards the creation path and the teardown; reads
 	// go through the lock-free map Get.
 	coalescers   *xsync.Map[string, *coalescer]
 	coalescersMu sync.Mutex
@@ -2473,10 +2473,15 @@ func (r *client) RemoteReinstate(ctx context.Context, host string, port int, nam
 func (r *client) Close() {
 	// Drain and stop all coalescers first so any pending batches are flushed
 	// through still-open pooled clients before those clients close.
+	// the creation lock is held so that a coalescer registered by a concurrent
+	// first use of a destination is either closed here or created afterwards,
+	// never dropped from the map while it is still open
+	r.coalescersMu.Lock()
 	r.coalescers.Range(func(_ string, c *coalescer) {
 		c.close()
 	})
 	r.coalescers.Reset()
+	r.coalescersMu.Unlock()
 
 	// Close all pooled clients to release TCP connections and file descriptors
 	r.clientCache.Range(func(_ string, client *inet.Client) {
